@@ -13,7 +13,7 @@ import (
 func init() {
 	register("C16", &monitor{
 		run: runC16,
-		rule: "random calls over the full value universe (structured formats, hostile raw formats, Print-style) and the C02 product leaves, each executed through Sprint(f), Fprint(f), StringBuilder.Print(f), SafePrinter.Print(f) inside Sprintfn and inside a SafeFormat method, and through the last three again with surrounding writer state (safe text, open envelope, pending bytes before and after); " +
+		rule: "random calls over the full value universe (structured formats, hostile raw formats, Print-style) and the C02 product leaves, each executed through Sprint(f), Fprint(f), StringBuilder.Print(f), SafePrinter.Print(f) inside Sprintfn and inside a SafeFormat method (also reached through a flagged directive), and through the last three again with surrounding writer state (safe text, open envelope, pending bytes before and after); " +
 			"oracle: S and F byte-identical, the other routes canonically equal (delta against the reference model of the surrounding calls); writers that succeed, fail or write short see exactly one Write with the whole text and their (n, err) is returned; " +
 			"non-trivial = the output has at least one envelope and one safe segment; distinct = distinct (format, operands)",
 	})
@@ -129,6 +129,34 @@ func c16check(w *Worker, call *Call, r *Rng, idx int64) {
 		}
 		if got := canon(o.out); got != cref {
 			w.Violate("C16 route-differs", routeNames[route]+" gives "+q(o.out)+" (canonical "+q(got)+"), Sprint(f) gives "+q(ref.out)+" (canonical "+q(cref)+") for "+call.String(), cs(routeNames[route])())
+			return
+		}
+	}
+	// the SafeFormat route again, with the method reached through a directive that carries flags, width and precision:
+	// what the enclosing directive says is not the nested call's business
+	{
+		outerDir := []string{"%8.3v", "%+v", "%#v", "%-6x", "%010d", "% .1s", "%+#12.4q"}[int(uint64(idx)%7)]
+		bc.resetCounters()
+		var out string
+		pan := func() (p interface{}) {
+			defer func() { p = recover() }()
+			out = string(redact.Sprintf(outerDir, fnFormatter(func(p redact.SafePrinter) {
+				if call.Sp {
+					p.Print(args...)
+				} else {
+					p.Printf(format, args...)
+				}
+			})))
+			return nil
+		}()
+		w.Eval(1)
+		name := "SafeFormat{Print(f)} reached through " + outerDir
+		if pan != nil {
+			w.Violate("C16 route-panicked", name+" panicked ("+pvalString(pan)+") where Sprint(f) did not: "+call.String(), cs(name)())
+			return
+		}
+		if got := canon(out); got != cref {
+			w.Violate("C16 route-differs", name+" gives "+q(out)+" (canonical "+q(got)+"), Sprint(f) gives "+q(ref.out)+" (canonical "+q(cref)+") for "+call.String(), cs(name)())
 			return
 		}
 	}
